@@ -435,7 +435,7 @@ func (r *vsRun) stepImport() {
 func (r *vsRun) apiCall(desc string, f func() error) error {
 	err, hung := c11Call(f)
 	if hung {
-		r.fatalf("%s did not return within 15s (service hangs)", desc)
+		r.fatalf("%s did not return within 15s (service hangs)\nblocked goroutines of the service:\n%s", desc, veBlockedGoroutines())
 	}
 	if err != nil {
 		r.log("%s -> error: %v", desc, err)
